@@ -659,3 +659,216 @@ def need_recycle():
 
 def mark_recycle():
     _RECYCLE[0] = True
+
+
+# --------------------------------------------------------------------------
+# depth-2 placement sweeps
+# --------------------------------------------------------------------------
+class Sweep2(object):
+    """Two directed preemptions.
+
+    ``scn`` provides setup(), role_a(ctx), role_b(ctx), start_a(ctx) -> Actor,
+    intervene1(ctx), intervene2(ctx), finish(ctx), oracle(ctx, res, info).
+    Role A is paused at position i, intervention 1 runs (to completion or until it
+    blocks), A is released; role B - armed from the start - is paused at its
+    position j, intervention 2 runs, B is released."""
+
+    def __init__(self, scn, res, mode, name):
+        self.scn, self.res, self.mode, self.name = scn, res, mode, name
+        self.hit2 = 0
+        self.runs = 0
+
+    def run_one(self, i, j):
+        scn, res = self.scn, self.res
+        begin(self.mode)
+        ctx = scn.setup()
+        info = {"pos": (i, j), "site": None, "site2": None, "hit": False, "hit2": False}
+        try:
+            ra, rb = scn.role_a(ctx), scn.role_b(ctx)
+            arm_a = TR.arm(ra, pause_k=i, record=(i is None))
+            arm_b = TR.arm(rb, pause_k=j, record=(j is None))
+            v = scn.start_a(ctx)
+            acts = [v]
+            released_a = False
+
+            def handle_b():
+                if arm_b.paused and not info["hit2"]:
+                    info["hit2"] = True
+                    info["site2"] = arm_b.site
+                    i2 = ctx.actor("I2", scn.intervene2, ctx).go()
+                    acts.append(i2)
+                    wait_done_or_blocked(i2)
+                    TR.release(arm_b)
+                    return True
+                return False
+
+            if i is not None:
+                why = instr.wait_paused_or(arm_a, lambda: v.finished or arm_b.paused)
+                if why == "pred" and arm_b.paused:
+                    handle_b()
+                    why = instr.wait_paused_or(arm_a, lambda: v.finished)
+                if why == "paused":
+                    info["hit"] = True
+                    info["site"] = arm_a.site
+                    i1 = ctx.actor("I1", scn.intervene1, ctx).go()
+                    acts.append(i1)
+                    # B may get paused while intervention 1 runs
+                    st = wait_done_or_blocked(i1)
+                    TR.release(arm_a)
+                    released_a = True
+                elif why == "timeout":
+                    raise Inconclusive("sweep2: A neither paused nor finished: " + instr.describe_threads())
+            # now wait for B's pause or for everything to finish
+            for _ in range(3):
+                why = instr.wait_paused_or(arm_b, lambda: all(a.finished for a in acts) and (
+                    instr.MODE[0] != "vt" or instr.quiescent()))
+                if why == "paused":
+                    if not handle_b():
+                        TR.release(arm_b)
+                    continue
+                break
+            trace_b = list(arm_b.trace) if arm_b.trace is not None else None
+            if i is None and j is None:
+                info["trace_a"] = list(arm_a.trace)
+            TR.disarm()
+            why = drive(acts, res)
+            if why == "timeout":
+                raise Inconclusive("sweep2: actors did not finish: " + instr.describe_threads())
+            ok = why == "ok"
+            if why == "hang":
+                res.violation("hang/" + self.name, "all threads blocked: %s" % instr.describe_threads(), stacks=hang_report(acts))
+                mark_recycle()
+            if ok and not LM.deadlocks:
+                scn.finish(ctx)
+            info["actors"] = acts
+            res.execs += 1
+            self.runs += 1
+            if info["hit2"]:
+                self.hit2 += 1
+                res.sites.add(info["site2"])
+            if info["site"]:
+                res.sites.add(info["site"])
+            check_common(res)
+            if ok and not LM.deadlocks:
+                scn.oracle(ctx, res, info)
+            return info.get("trace_a"), trace_b
+        finally:
+            end(ctx)
+
+    def run(self, cap_a, cap_b, rng, per_site=1, budget=None):
+        ta, tb0 = self.run_one(None, None)
+        pa = sample_positions(ta or [], cap_a, rng, per_site)
+        n = 0
+        for i in pa:
+            _, tb = self.run_one(i, None)
+            pb = sample_positions(tb or [], cap_b, rng, per_site)
+            for j in pb:
+                self.run_one(i, j)
+                n += 1
+                if need_recycle() or (budget and n >= budget):
+                    break
+            if need_recycle() or (budget and n >= budget):
+                break
+        self.res.count("sweep2.pairs_run", n)
+        self.res.count("sweep2.second_placement_hit", self.hit2)
+
+
+class SweepNested(object):
+    """Two directed preemptions, nested: role A is paused at position i; the
+    intervention actor 'I1' is started and itself paused at its position j; A is
+    released and runs as far as it can; then I1 is released.
+
+    ``scn`` provides setup(), role_a(ctx), start_a(ctx) -> Actor, intervene1(ctx),
+    finish(ctx), oracle(ctx, res, info)."""
+
+    def __init__(self, scn, res, mode, name):
+        self.scn, self.res, self.mode, self.name = scn, res, mode, name
+        self.hit2 = 0
+
+    def run_one(self, i, j):
+        scn, res = self.scn, self.res
+        begin(self.mode)
+        ctx = scn.setup()
+        info = {"pos": (i, j), "site": None, "site2": None, "hit": False, "hit2": False}
+        try:
+            ra = scn.role_a(ctx)
+            arm_a = TR.arm(ra, pause_k=i, record=(i is None))
+            arm_x = TR.arm("I1", pause_k=j, record=(j is None))
+            v = scn.start_a(ctx)
+            acts = [v]
+            if i is not None:
+                if v.role == ra:
+                    why = instr.wait_paused_or(arm_a, lambda: v.finished)
+                else:
+                    why = instr.wait_paused_or(arm_a, lambda: instr.quiescent())
+                if why == "timeout":
+                    raise Inconclusive("nested: A neither paused nor quiescent: " + instr.describe_threads())
+                info["hit"] = why == "paused"
+                info["site"] = arm_a.site
+            else:
+                drive([v], res)
+                if instr.MODE[0] == "vt":
+                    instr.settle()
+            i1 = ctx.actor("I1", scn.intervene1, ctx).go()
+            acts.append(i1)
+            if j is not None:
+                why = instr.wait_paused_or(arm_x, lambda: i1.finished or instr.thread_state(i1) in ("blocked", "parked"))
+                info["hit2"] = why == "paused"
+                info["site2"] = arm_x.site
+            else:
+                wait_done_or_blocked(i1)
+            # release A first and let it run as far as it can
+            TR.release(arm_a)
+            TR.disarm(ra)
+            if instr.MODE[0] == "vt":
+                t_end = _real_monotonic() + 20
+                with CV:
+                    while not instr.quiescent() and not LM.deadlocks and _real_monotonic() < t_end:
+                        CV.wait(0.01)
+            else:
+                wait_done_or_blocked(v)
+            TR.release(arm_x)
+            trace_x = list(arm_x.trace) if arm_x.trace is not None else None
+            trace_a = list(arm_a.trace) if arm_a.trace is not None else None
+            TR.disarm()
+            why = drive(acts, res)
+            if why == "timeout":
+                raise Inconclusive("nested: actors did not finish: " + instr.describe_threads())
+            ok = why == "ok"
+            if why == "hang":
+                res.violation("hang/" + self.name, "all threads blocked: %s" % instr.describe_threads(), stacks=hang_report(acts))
+                mark_recycle()
+            if ok and not LM.deadlocks:
+                scn.finish(ctx)
+            info["actors"] = acts
+            res.execs += 1
+            if info["hit2"] and info["hit"]:
+                self.hit2 += 1
+            for s in (info["site"], info["site2"]):
+                if s:
+                    res.sites.add(s)
+            check_common(res)
+            if ok and not LM.deadlocks:
+                scn.oracle(ctx, res, info)
+            return trace_a, trace_x
+        finally:
+            end(ctx)
+
+    def run(self, cap_a, cap_b, rng, per_site=1, budget=None, a_slice=None):
+        ta, _ = self.run_one(None, None)
+        pa = sample_positions(ta or [], cap_a, rng, per_site)
+        if a_slice:
+            pa = [p for n_, p in enumerate(pa) if n_ % a_slice[1] == a_slice[0]]
+        n = 0
+        for i in pa:
+            _, tx = self.run_one(i, None)
+            px = sample_positions(tx or [], cap_b, rng, per_site)
+            for j in px:
+                self.run_one(i, j)
+                n += 1
+                if need_recycle() or (budget and n >= budget):
+                    break
+            if need_recycle() or (budget and n >= budget):
+                break
+        self.res.count("nested.pairs_run", n)
+        self.res.count("nested.both_placements_hit", self.hit2)
